@@ -21,6 +21,75 @@ func init() {
 	commands["c14-results"] = c14Results
 	commands["c14-entry"] = c14Entry
 	commands["c14-pool"] = c14Pool
+	commands["c14-dns"] = c14Dns
+}
+
+// c14DnsLookup is the stub resolver of PacDns.tla: per name the addresses in resolver order; "ip4" filters.
+func c14DnsLookup(_ context.Context, network, host string) ([]net.IP, error) {
+	all := map[string][]string{
+		"known": {"10.11.192.10", "2001:db8::1"}, "six": {"2001:db8::6"}, "sixfirst": {"2001:db8::7", "10.1.2.3"}, "other": {"192.10.10.11"},
+	}[host]
+	var out []net.IP
+	for _, a := range all {
+		ip := net.ParseIP(a)
+		if network == "ip4" && ip.To4() == nil {
+			continue
+		}
+		out = append(out, ip)
+	}
+	if len(out) == 0 {
+		return nil, errors.New("no such host")
+	}
+	return out, nil
+}
+
+const c14DnsScript = `
+function FindProxyForURL(url, host) {
+  var cs = JSON.parse(host), out = [];
+  for (var i = 0; i < cs.length; i++) {
+    var c = cs[i], r;
+    if (c.fn == "isInNet10") { r = isInNet(c.n, "10.0.0.0", "255.0.0.0"); }
+    else if (c.fn == "dnsResolve") { r = dnsResolve(c.n); }
+    else if (c.fn == "isResolvable") { r = isResolvable(c.n); }
+    else if (c.fn == "dnsResolveEx") { r = dnsResolveEx(c.n); }
+    else { r = isResolvableEx(c.n); }
+    out.push(String(r));
+  }
+  return out.join("|");
+}`
+
+// c14Dns: several DNS-backed helpers are called in ONE evaluation (PacDns.tla Independent): each returns what it
+// returns alone. Every case runs on a fresh resolver and again on a shared one (the state of earlier evaluations
+// must not matter either).
+func c14Dns(e *env) {
+	mk := func() *pac.ProxyResolver {
+		pr, err := pac.NewProxyResolver(pac.VerifConfig(c14DnsScript, c14DnsLookup, nil, nil), nil)
+		if err != nil {
+			fatal("resolver: %v", err)
+		}
+		return pr
+	}
+	shared := mk()
+	u, _ := url.Parse("http://x/")
+	e.eachCase(func(raw json.RawMessage) {
+		var c struct {
+			Calls []map[string]string `json:"calls"`
+			Want  []string            `json:"want"`
+		}
+		if err := json.Unmarshal(raw, &c); err != nil {
+			fatal("bad case: %v", err)
+		}
+		arg, _ := json.Marshal(c.Calls)
+		res := map[string]any{"ok": true, "calls": c.Calls, "want": c.Want}
+		for _, pr := range []*pac.ProxyResolver{mk(), shared} {
+			got, err := pr.FindProxyForURL(u, string(arg))
+			if err != nil || got != strings.Join(c.Want, "|") {
+				res["ok"], res["got"], res["why"] = false, got, fmt.Sprintf("helpers called in one evaluation returned %q (err %v), alone they return %q", got, err, strings.Join(c.Want, "|"))
+				break
+			}
+		}
+		e.emit(res)
+	})
 }
 
 func c14Lookup(_ context.Context, network, host string) ([]net.IP, error) {
